@@ -18,12 +18,14 @@ def Strm.Plan.faults {α : Type} : Plan α → Nat
   | .leaf ft _ => if ft.isSome then 1 else 0
   | .unary ft _ c => (if ft.isSome then 1 else 0) + c.faults
   | .binary ft _ l r => (if ft.isSome then 1 else 0) + l.faults + r.faults
+  | .mjoin ft _ _ l r => (if ft.isSome then 1 else 0) + l.faults + r.faults
 
 /-- Some armed fault of kind `kd` fires: its node produces an item with that index. -/
 def Strm.Plan.Fires {α : Type} (kd : FaultKind) : Plan α → Prop
   | .leaf ft out => ∃ k, ft = some ⟨k, kd⟩ ∧ k < out.items
   | .unary ft o c => (∃ k, ft = some ⟨k, kd⟩ ∧ k < (o.exec c.tr).items) ∨ c.Fires kd
   | .binary ft o l r => (∃ k, ft = some ⟨k, kd⟩ ∧ k < (o.exec l.tr r.tr).items) ∨ l.Fires kd ∨ r.Fires kd
+  | .mjoin ft o fuel l r => (∃ k, ft = some ⟨k, kd⟩ ∧ k < (o.exec fuel l.tr r.tr).items) ∨ l.Fires kd ∨ r.Fires kd
 
 /-! ## error faults -/
 
@@ -160,6 +162,28 @@ theorem stream_chain_prefix {α : Type} : ∀ (p : Plan α), p.StreamChain → p
     rw [this]
     exact List.IsPrefix.trans (applyFault_chunks_prefix ft _) (prefix_monotone o h.1 _ _ ih)
   | .binary _ _ _ _, h => by cases h
+  | .mjoin _ _ _ _ _, h => by cases h
+
+/-! ## the merge join (interleaved reads of two inputs) -/
+
+/-- `no_partial_ok` for a merge join, spelled out: whatever faults are armed in its inputs (or at
+the join itself), at whatever chunk index of either side, a merge join that returns `Ok` returns
+exactly the fault-free rows. (Instance of `no_partial_ok`, which covers `Plan.mjoin` through
+`OpM.go_rel`: the interleaved loop re-raises an `Err` item of either input at whatever position.) -/
+theorem merge_join_no_partial_ok {α : Type} (ft : Option Fault) (o : OpM α) (fuel : Nat) (l r : Plan α)
+    (rows : List α) (h : (Plan.mjoin ft o fuel l r).run = .ok rows) :
+    (Plan.mjoin ft o fuel l r).clean.run = .ok rows :=
+  no_partial_ok _ rows h
+
+/-- The former blind spot (an `Err` of a side that has already delivered a chunk read as "side
+exhausted"): with the modelled loop the error of the left input at its 2nd item, or of the right
+input at its 3rd, is reported. -/
+theorem merge_join_err_any_position :
+    (Plan.mjoin none (mergeJoinOp 2 3 2 [3]) 20 (src3 (some ⟨1, .error⟩)) (src2 none)).run = .error 0 ∧
+    (Plan.mjoin none (mergeJoinOp 2 3 2 [3]) 20 (src3 none) (src2 (some ⟨1, .panic⟩))).run = .error 2 ∧
+    (Plan.mjoin none (mergeJoinOp 2 3 2 [3]) 20 (src3 (some ⟨2, .error⟩)) (src2 none)).run = .error 0 ∧
+    (Plan.mjoin none (mergeJoinOp 2 3 2 [3]) 20 (src3 none) (src2 none)).run =
+      .ok [⟨2, 0, 3, true⟩] := ⟨rfl, rfl, rfl, rfl⟩
 
 /-! ## DML -/
 
